@@ -96,4 +96,23 @@ Theorem C09_format_crlf_input :
   format_model alnum cfg (FmtDataProofs.lf_to_crlf s) = format_model alnum cfg s.
 Proof. exact format_crlf_input. Qed.
 
+(* the lexer link of clause 3: the lexer commutes with LF -> CRLF when no token text holds a line break and every directive token is
+   terminated (every sub-lexer stops at the first CR or LF and cannot tell them apart); with it clause 3 holds end to end under two
+   boolean checks on the input *)
+From PasfmtVerif Require Import Model.Format Proofs.FormatProofs Proofs.FormatIdemProofs Proofs.LexerCrlfProofs Proofs.FormatCrlfLinkProofs.
+Theorem C09_format_crlf_input_checked :
+  forall (alnum : bytes -> bool) (cfg : fconfig) (s : bytes) (segs : list seg),
+  lex_segments s = Some segs ->
+  crlf_link_okb segs = true ->
+  forallb negb (fm_marks segs) = true ->
+  format_model alnum cfg (FmtDataProofs.lf_to_crlf s) = format_model alnum cfg s.
+Proof. exact format_crlf_input_checked. Qed.
+
+Theorem C09_lexer_commutes_with_crlf :
+  forall (s : bytes) (segs : list seg),
+  lex_segments s = Some segs ->
+  Forall seg_crlf_ok segs ->
+  lex_segments (FmtDataProofs.lf_to_crlf s) = Some (map crlf_seg3 segs).
+Proof. exact lex_crlf. Qed.
+
 
